@@ -22,6 +22,7 @@ typedef struct {
 	int nper; cm_periph_t per[3]; int nseg; cm_seg_t seg[4]; int nrev; cm_rev_t rev[2];
 	/* simulated bus */
 	int present; uint8_t local; int parent;      /* parent: model index of the interface board, -1 = root; board 0 is the root */
+	uint8_t hub_local;                            /* != 0 (and parent < 0): the board sits beneath a hub that is NOT in the configuration, which has this local address at the root */
 	int sbnode;                                   /* simbus node index after cm_install */
 } cm_board_t;
 typedef struct { char id[24]; uint8_t bit; int has_initial; uint8_t initial; } cm_tper_t;
